@@ -79,7 +79,7 @@ dropping the rest of the frame -/
 def FrameErr (r : Res DecErr DecStatus) : Prop :=
   r = .err .gseLength ∨ r = .err .sizeBuffer ∨ r = .err .sizePduBuffer ∨ r = .err .totalLength
 
-instance (r : Res DecErr DecStatus) : Decidable (FrameErr r) := by unfold FrameErr; infer_instance
+instance instDecidableFrameErr (r : Res DecErr DecStatus) : Decidable (FrameErr r) := by unfold FrameErr; infer_instance
 
 /-- The extension walk of a start/complete packet: protocol-type field at `ptOff`, extension
 area from `off` to `pktLen`.  `none`: no walk (protocol type ≥ `SECOND_RANGE_PTYPE`, or a field
